@@ -1270,6 +1270,9 @@ func (f *fnTr) ifStmt(x *ast.IfStmt, em *emitter, inLoop bool) {
 									if _, g := f.t.globals["cryptoRander"]; !g {
 										f.bad(x, "cryptoRander is not the package-level source variable")
 									}
+									if where, mut := f.t.assigned["cryptoRander"]; mut {
+										f.bad(x, "the source variable cryptoRander is assigned in %s", where)
+									}
 									em.add(fmt.Sprintf("Go.bind (Go.readFull %s) fun %s =>", leanId(buf.Name), leanId(buf.Name)))
 									return
 								}
